@@ -170,27 +170,23 @@ Proof.
   - eapply add_object_stable; eassumption.
 Qed.
 
+Lemma replace_page_content_stable d page c d' r : alloc_ok d -> replace_page_content d page c = (d', r) -> all_stable d d'.
+Proof.
+  intro A. unfold replace_page_content.
+  destruct (add_object d (new_stream c)) as [[d1 nid]|] eqn:E; [|intro H; inversion H; apply all_stable_refl].
+  destruct (set_page_entry _ _ _ _) as [m2|] eqn:Es; intro H; inversion H; subst.
+  - eapply add_then_set_stable; eassumption.
+  - eapply add_object_stable; eassumption.
+Qed.
+
 Lemma change_page_content_stable O d page c d' r : alloc_ok d -> change_page_content O d page c = (d', r) -> all_stable d d'.
 Proof.
   intro A. unfold change_page_content.
   destruct (get_dictionary (d_objects d) page) as [pd|]; [|intro H; inversion H; apply all_stable_refl].
-  assert (New : forall d' r,
-    match add_object d (new_stream c) with
-    | Some (d1, nid) =>
-      match set_page_entry (d_objects d1) page K_Contents (ORef (fst nid) (snd nid)) with
-      | Some m2 => (with_objs d1 m2, OOk)
-      | None => (d1, OOk)
-      end
-    | None => (d, OPanic)
-    end = (d', r) -> all_stable d d').
-  { intros d2 r2. destruct (add_object d (new_stream c)) as [[d1 nid]|] eqn:E; [|intro H; inversion H; apply all_stable_refl].
-    destruct (set_page_entry _ _ _ _) as [m2|] eqn:Es; intro H; inversion H; subst.
-    - eapply add_then_set_stable; eassumption.
-    - eapply add_object_stable; eassumption. }
-  destruct (dict_get pd K_Contents) as [[| | | | | |l| | |i g]|]; try (intro H; inversion H; apply all_stable_refl).
-  - destruct l as [|x [|y l]]; [apply New | | apply New].
-    destruct x; intro H; inversion H; subst; try apply all_stable_refl. apply ccs_stable.
-  - intro H; inversion H; subst. apply ccs_stable.
+  destruct (dict_get pd K_Contents) as [x|]; [|intro H; inversion H; apply all_stable_refl].
+  destruct (single_stream (d_objects d) x) as [id|]; [|apply replace_page_content_stable; exact A].
+  destruct (is_content_stream_of_another_page d id page); [apply replace_page_content_stable; exact A|].
+  intro H; inversion H; subst. apply ccs_stable.
 Qed.
 
 Lemma remove_annot_loop_stable target x : forall pages m m' ok,
